@@ -1635,6 +1635,8 @@ def Mandatory(cls, **_kwargs):
     elif issubclass(cls, Array):
         (k,v), = cls._type_info.items()
         if v.Attributes.min_occurs == 0:
-            cls._type_info[k] = Mandatory(v)
+            retval = cls.customize(**kwargs)
+            retval._type_info[k] = Mandatory(v)
+            return retval
 
     return cls.customize(**kwargs)
